@@ -1,4 +1,5 @@
 import KfacVerif.Driver.Kaisa
+import KfacVerif.Driver.Misc
 
 namespace KV.Driver
 
@@ -13,6 +14,14 @@ def dispatch (line : String) : String :=
     | "strategy" => strategyOp args
     | "partition" => partitionOp args
     | "enumworkers" => enumWorkersOp args
+    | "triu" => triuOp args
+    | "fill" => fillOp args
+    | "comm" => commOp args
+    | "sched" => schedOp args
+    | "schedctor" => schedCtorOp args
+    | "expdecay" => expDecayOp args
+    | "trace" => traceOp args
+    | "register" => registerOp args
     | _ => "bad-op"
 
 end KV.Driver
